@@ -222,6 +222,6 @@ def execute(cases_, tier, seed):
     res.bound = "tier=%s: depth-2 space x %s; collision, default, n=1 cycle and history families" % (
         tier, "{builder off,on}" if tier == "quick" else "settings product (12) on def/member/map/pair contexts, {builder off,on} elsewhere; + pairs + depth-3")
     res.assumptions = ["rustc 1.80.1 `cargo check` (type-check) against serde, serde_json, chrono, uuid, regress at the repo's locked versions; warnings ignored"]
-    if len(cases_) > 50 and hist.get("ok", 0) < 100:
+    if not res.violations and (len(cases_) > 50 and hist.get("ok", 0) < 100):   # a subject that breaks everything is reported through its violations, not as vacuity
         raise MachineryError("vacuity guard: only %d modules type-checked" % hist.get("ok", 0))
     return res
